@@ -19,26 +19,49 @@ from core import F, rs, rl, pr, pl
 PROP = "C12"
 
 
+def arg_form(rng, k, whole=None, f32=True):
+    """a reduced-phase vector in one of the forms callers use: list of floats (default), list /
+    array of whole numbers given as ints (the library's own tests build [0, 0, 0]), float32 array,
+    tuple, float64 array.  Returns (object handed to pyqsp, exact float values, form name)."""
+    r = rng.random() if whole is None else (0.0 if whole else 1.0)
+    if r < 0.25:
+        vals = [int(v) for v in rng.integers(-3, 4, size=k)] if rng.random() < 0.7 else [0] * k
+        form = str(rng.choice(["int-list", "int-array"]))
+        return (list(vals) if form == "int-list" else np.array(vals, dtype=int)), [float(v) for v in vals], form
+    vals = gens.phases(rng, k)[0]
+    r2 = rng.random()
+    if r2 < 0.1 and f32:     # layout only: float32 input makes numpy compute the response in single precision
+        a = np.array(vals, dtype=np.float32)
+        return a, [float(v) for v in a], "float32-array"
+    if r2 < 0.2:
+        return tuple(vals), vals, "tuple"
+    if r2 < 0.35:
+        return np.array(vals, dtype=float), vals, "float64-array"
+    return vals, vals, "float-list"
+
+
 def layout_case(ctx, S, rng):
     d = ctx.driver()
     parity = int(rng.choice([0, 1]))
     k0 = int(rng.integers(1, 61))
     hist_len = int(rng.integers(0, 21))
-    lists = [gens.phases(rng, k0)[0]]
-    for _ in range(hist_len):
-        k = k0 if rng.random() < 0.6 else int(rng.integers(1, 61))
-        lists.append(gens.phases(rng, k)[0])
+    objs, lists, forms = [], [], []
+    for i in range(hist_len + 1):
+        k = k0 if (i == 0 or rng.random() < 0.6) else int(rng.integers(1, 61))
+        o, v, f = arg_form(rng, k)
+        objs.append(o); lists.append(v); forms.append(f)
+        ctx.count("argument-form:" + f)
     with core.quiet():
-        p = S.SymmetricQSPProtocol(reduced_phases=lists[0], parity=parity)
-        for l in lists[1:]:
-            p.update_reduced_phases(l)
-        fresh = S.SymmetricQSPProtocol(reduced_phases=lists[-1], parity=parity)
+        p = S.SymmetricQSPProtocol(reduced_phases=objs[0], parity=parity)
+        for o in objs[1:]:
+            p.update_reduced_phases(o)
+        fresh = S.SymmetricQSPProtocol(reduced_phases=objs[-1], parity=parity)
     mo = d.ask("sym.hist %d %s" % (parity, " ".join(rl(F(x) for x in l) for l in lists)))
     mfull, mdeg, mred = mo.split()
     ctx.count("layout:parity=%d" % parity)
     ctx.count("history-length", hist_len)
     ctx.case(["layout", parity, lists], True, {"kind": "layout", "parity": parity, "history": hist_len, "k": len(lists[-1])})
-    replay = {"kind": "layout", "parity": parity, "history": lists}
+    replay = {"kind": "layout", "parity": parity, "history": lists, "argument_forms": forms}
     full = [F(float(x)) for x in np.asarray(p.full_phases)]
     if full != pl(mfull) or int(p.poly_deg) != int(mdeg) or [F(float(x)) for x in np.asarray(p.reduced_phases)] != pl(mred):
         ctx.violation("c12:layout:parity=%d" % parity, "full phases / degree after the update history differ from the palindrome layout of the model",
@@ -93,11 +116,11 @@ def history_response_case(ctx, S, rng):
     d = ctx.driver()
     parity = int(rng.choice([0, 1]))
     k = int(rng.integers(1, 9))
-    red = gens.phases(rng, k)[0]
+    obj, red, form = arg_form(rng, k, f32=False)
     with core.quiet():
-        p = S.SymmetricQSPProtocol(reduced_phases=red, parity=parity)
+        p = S.SymmetricQSPProtocol(reduced_phases=obj, parity=parity)
     steps = int(rng.integers(2, 7))
-    trace = [("init", red)]
+    trace = [("init:" + form, red)]
     for step in range(steps):
         obs = str(rng.choice(["re", "im", "unitary", "jac", "none"]))
         a = float(rng.choice([float(rng.uniform(-1, 1)), 1.0, -1.0, 0.0]))
@@ -131,11 +154,11 @@ def history_response_case(ctx, S, rng):
                 ctx.violation("c12:jacobian-after-history:parity=%d" % parity, "after a history the Jacobian routine does not describe the CURRENT phases",
                               {"kind": "history-jacobian", "parity": parity, "trace": trace})
                 return
-        red = gens.phases(rng, k if rng.random() < 0.7 else int(rng.integers(1, 9)))[0]
+        obj, red, form = arg_form(rng, k if rng.random() < 0.7 else int(rng.integers(1, 9)), f32=False)
         k = len(red)
         trace.append(("update", red))
         with core.quiet():
-            p.update_reduced_phases(red)
+            p.update_reduced_phases(obj)
     ctx.count("history-with-observations:parity=%d" % parity)
     ctx.case(["histobs", parity, [t if t[0] != "update" else ("update", tuple(t[1])) for t in trace]], True,
              {"kind": "history with observations", "parity": parity, "steps": steps})
@@ -175,7 +198,7 @@ def jacobian_case(ctx, S, rng, kmax):
 
 
 def run(tier, seed):
-    ctx = core.Ctx(PROP, tier, seed, "proof", ["C12", "C10"])
+    ctx = core.Ctx(PROP, tier, seed, "proof", ["C12", "C12b", "C10"])
     ctx.axioms = core.audit(ctx.modules)
     import pyqsp.sym_qsp_opt as S
     q = tier == "quick"
